@@ -420,7 +420,7 @@ def persist_case(attrs, rng, tag, absolute=True):
         else:
             os.chdir(scratch())
             L.save(os.path.basename(folder), ds)
-    except (FileNotFoundError, NotADirectoryError, IsADirectoryError, ValueError, TypeError) as e:
+    except Exception as e:      # noqa: BLE001 - any refusal to save is an observation
         err = 'err ' + type(e).__name__
     finally:
         os.chdir(cwd)
@@ -503,6 +503,8 @@ def within_case(cwd, directory, target):
     try:
         os.chdir(cwd)
         impl = 'ok ' + enc_bool(L.is_within_directory(directory, target))
+    except Exception as e:      # noqa: BLE001 - the function is total on strings
+        impl = 'err ' + type(e).__name__
     finally:
         os.chdir(old)
     # the model takes the current directory as a string: the harness hands over the real one
@@ -793,11 +795,15 @@ def gen_persist_cases(ctx, out, earlies):
     for sq in (True, False):
         folder = os.path.join(scratch(), 'bm_%d' % sq)
         m = sparse.csr_matrix(np.eye(2) if sq else np.ones((2, 3)))
-        L.save(folder, m)
-        files = sorted(os.listdir(folder))
-        back = L.load(folder)
-        ok = list(back.keys()) == ['adjacency' if sq else 'biadjacency'] and same_value(list(back.values())[0], m)
-        impl = 'ok ' + ','.join('%s:csr:0' % enc_str(f) for f in files)
+        try:
+            L.save(folder, m)
+            files = sorted(os.listdir(folder))
+            back = L.load(folder)
+            ok = list(back.keys()) == ['adjacency' if sq else 'biadjacency'] and same_value(list(back.values())[0], m)
+            impl = 'ok ' + ','.join('%s:csr:0' % enc_str(f) for f in files)
+        except Exception as e:      # noqa: BLE001
+            ok = False
+            impl = 'err ' + type(e).__name__
         c = Case(('save_matrix', sq), {'entry': 'save', 'arg': 'matrix'}, 'c18.save_matrix %s 0' % enc_bool(sq), impl, None,
                  True, {'f': 'save_matrix', 'square': sq})
         out.append(c)
